@@ -9,6 +9,7 @@
 package main
 
 import (
+	"sort"
 	"encoding/json"
 	"fmt"
 	"os"
@@ -63,6 +64,7 @@ type Facts struct {
 	Wire hx.B   `json:"wire,omitempty"` // random replies: the reply before Truncate, packed uncompressed (replayable input)
 	Case *vcase `json:"case,omitempty"` // enumerated cases: the vector itself (replayable input)
 	Comp bool   `json:"comp"`
+	Over string `json:"over,omitempty"` // a fitting reply was cut: the record types behind the over-estimate of Len() (finding key only)
 }
 
 var filler = strings.Repeat("x", 250)
@@ -155,11 +157,17 @@ func setQuestions(m *dns.Msg, q int) {
 func packLen(m *dns.Msg, compress bool) int {
 	c := m.Copy()
 	c.Compress = compress
-	b, err := c.Pack()
+	b, err := packRoomy(c)
 	if err != nil {
 		hx.Die("Pack of a generated reply failed: %v\n%s", err, m)
 	}
 	return len(b)
+}
+
+// packRoomy packs into a buffer that is large enough whatever Len() says: whether Len() is right is C08's
+// business; here the question is how many octets the message takes on the wire.
+func packRoomy(m *dns.Msg) ([]byte, error) {
+	return m.PackBuffer(make([]byte, 1<<17))
 }
 
 func nonOpt(rrs []dns.RR) []dns.RR {
@@ -260,7 +268,7 @@ func measure(m *dns.Msg, size int) Facts {
 			f.RestSame = false
 		}
 	}
-	b, err := m.Pack()
+	b, err := packRoomy(m)
 	if err != nil {
 		hx.Die("Pack after Truncate failed: %v", err)
 	}
@@ -288,7 +296,63 @@ func measure(m *dns.Msg, size int) Facts {
 		}
 		f.LenNext = packLen(nx, true)
 	}
+	lim := size
+	if lim < 512 {
+		lim = 512
+	}
+	if f.LenFit <= lim && (f.AAn < f.NAn || f.ANs < f.NNs || f.AAr < f.NAr) {
+		f.Over = overCause(orig)
+	}
 	return f
+}
+
+// overCause names, for a reply whose compressed Len() exceeds its packed length, the record types behind the
+// excess: the first record at which the excess grows, and the smallest set of earlier records it needs for that.
+// Only used to keep the finding keys of distinct defects apart.
+func overCause(m *dns.Msg) string {
+	excess := func(rrs []dns.RR) int {
+		x := &dns.Msg{MsgHdr: m.MsgHdr, Question: m.Question, Compress: true, Answer: rrs}
+		b, err := packRoomy(x)
+		if err != nil {
+			return 0
+		}
+		return x.Len() - len(b)
+	}
+	all := append(append(append([]dns.RR(nil), m.Answer...), m.Ns...), m.Extra...)
+	for i := range all {
+		base := excess(all[:i])
+		if excess(all[:i+1]) <= base {
+			continue
+		}
+		keep := append([]dns.RR(nil), all[:i]...)
+		for k := 0; k < len(keep); {
+			t := append(append([]dns.RR(nil), keep[:k]...), keep[k+1:]...)
+			if excess(append(append([]dns.RR(nil), t...), all[i])) > excess(t) {
+				keep = t
+			} else {
+				k++
+			}
+		}
+		if len(keep) > 0 {
+			if ex := excess(keep); ex > 0 { // the earlier records over-estimate among themselves
+				continue
+			}
+		}
+		set := map[string]bool{}
+		for _, r := range keep {
+			set[dns.TypeToString[r.Header().Rrtype]] = true
+		}
+		if len(set) == 0 {
+			return dns.TypeToString[all[i].Header().Rrtype]
+		}
+		var names []string
+		for n := range set {
+			names = append(names, n)
+		}
+		sort.Strings(names)
+		return strings.Join(names, "+") + ">" + dns.TypeToString[all[i].Header().Rrtype]
+	}
+	return ""
 }
 
 func resolve(c *vcase, m *dns.Msg) int {
